@@ -617,6 +617,12 @@ func (wr *Writer) appendStruct(rv reflect.Value, depth int, si *sinfo) {
 }
 
 func (wr *Writer) appendSlice(rv reflect.Value, depth int, si *sinfo) {
+	if rv.Kind() == reflect.Slice && rv.Type().Elem().Kind() == reflect.Uint8 {
+		// A []byte is written as the BytesAs option says, as it is when it
+		// is an element of a []any.
+		wr.appendJSON(rv.Bytes(), depth)
+		return
+	}
 	end := rv.Len()
 	if end == 0 {
 		wr.buf = append(wr.buf, "[]"...)
